@@ -39,6 +39,7 @@ pub proof fn lemma_clear<T, U>(ix0: Seq<usize>, ix1: Seq<usize>, orig: Seq<T>, f
     assert(view_of(ix1, Seq::<T>::empty(), fs) =~= Seq::<U>::empty());
 }
 
+#[verifier::rlimit(80)]
 pub proof fn lemma_push_front<T, U>(ix0: Seq<usize>, ix1: Seq<usize>, res: Option<VectorDiff<U>>, orig: Seq<T>, fs: spec_fn(T) -> Option<U>, value: T)
     requires
         finv(ix0, orig.len() as usize, orig, fs),
@@ -93,6 +94,7 @@ pub open spec fn ins_elems(ix0: Seq<usize>, ix1: Seq<usize>, index: usize, pos: 
     &&& off == 1 ==> ix1[pos] == index
     &&& forall|i: int| pos <= i < ix0.len() ==> #[trigger] ix1[i + off] == ix0[i] + 1
 }
+#[verifier::rlimit(80)]
 proof fn lemma_insert_kept<T, U>(ix0: Seq<usize>, ix1: Seq<usize>, orig: Seq<T>, fs: spec_fn(T) -> Option<U>, index: usize, value: T, pos: int, off: int)
     requires
         finv(ix0, orig.len() as usize, orig, fs), orig.len() + 1 < usize::MAX, index <= orig.len(), is_pos(ix0, index, pos),
@@ -128,6 +130,7 @@ proof fn lemma_insert_kept<T, U>(ix0: Seq<usize>, ix1: Seq<usize>, orig: Seq<T>,
         if j < pos { assert(ix1[j] == ix0[j]); } else if !(j == pos && off == 1) { assert(ix1[(j - off) + off] == ix0[j - off] + 1); }
     }
 }
+#[verifier::rlimit(80)]
 proof fn lemma_insert_view<T, U>(ix0: Seq<usize>, ix1: Seq<usize>, orig: Seq<T>, fs: spec_fn(T) -> Option<U>, index: usize, value: T, pos: int, off: int)
     requires
         finv(ix0, orig.len() as usize, orig, fs), index <= orig.len(), is_pos(ix0, index, pos),
@@ -192,6 +195,7 @@ pub open spec fn rem_elems(ix0: Seq<usize>, ix1: Seq<usize>, pos: int, off: int)
     &&& forall|i: int| 0 <= i < pos ==> #[trigger] ix1[i] == ix0[i]
     &&& forall|i: int| pos <= i < ix1.len() ==> #[trigger] ix1[i] == ix0[i + off] - 1
 }
+#[verifier::rlimit(80)]
 proof fn lemma_remove_kept<T, U>(ix0: Seq<usize>, ix1: Seq<usize>, orig: Seq<T>, fs: spec_fn(T) -> Option<U>, index: usize, pos: int, off: int)
     requires
         finv(ix0, orig.len() as usize, orig, fs), index < orig.len(), is_pos(ix0, index, pos),
@@ -223,6 +227,7 @@ proof fn lemma_remove_kept<T, U>(ix0: Seq<usize>, ix1: Seq<usize>, orig: Seq<T>,
         if j < pos { assert(ix1[j] == ix0[j]); } else { assert(ix1[j] == ix0[j + off] - 1); assert(ix0[j + off] > index); }
     }
 }
+#[verifier::rlimit(80)]
 proof fn lemma_remove_view<T, U>(ix0: Seq<usize>, ix1: Seq<usize>, orig: Seq<T>, fs: spec_fn(T) -> Option<U>, index: usize, pos: int, off: int)
     requires
         finv(ix0, orig.len() as usize, orig, fs), index < orig.len(), is_pos(ix0, index, pos),
@@ -334,6 +339,7 @@ proof fn lemma_set_same<T, U>(ix0: Seq<usize>, orig: Seq<T>, fs: spec_fn(T) -> O
     assert(target =~= v1);
 }
 // `drop`: the item was kept and the new value fails the filter
+#[verifier::rlimit(80)]
 proof fn lemma_set_drop<T, U>(ix0: Seq<usize>, orig: Seq<T>, fs: spec_fn(T) -> Option<U>, index: usize, value: T, pos: int)
     requires
         finv(ix0, orig.len() as usize, orig, fs), index < orig.len(), is_pos(ix0, index, pos),
@@ -374,6 +380,7 @@ pub open spec fn add_elems(ix0: Seq<usize>, ix1: Seq<usize>, index: usize, pos: 
     &&& ix1[pos] == index
     &&& forall|i: int| pos < i < ix1.len() ==> #[trigger] ix1[i] == ix0[i - 1]
 }
+#[verifier::rlimit(80)]
 proof fn lemma_set_add_kept<T, U>(ix0: Seq<usize>, ix1: Seq<usize>, orig: Seq<T>, fs: spec_fn(T) -> Option<U>, index: usize, value: T, pos: int)
     requires
         finv(ix0, orig.len() as usize, orig, fs), index < orig.len(), is_pos(ix0, index, pos),
@@ -446,6 +453,7 @@ pub proof fn lemma_set<T, U>(ix0: Seq<usize>, ix1: Seq<usize>, res: Option<Vecto
         lemma_set_add_view(ix0, ix1, orig, fs, index, value, pos);
     }
 }
+#[verifier::rlimit(80)]
 pub proof fn lemma_truncate<T, U>(ix0: Seq<usize>, ix1: Seq<usize>, res: Option<VectorDiff<U>>, orig: Seq<T>, fs: spec_fn(T) -> Option<U>, len: usize, n: usize)
     requires
         finv(ix0, orig.len() as usize, orig, fs),
@@ -478,6 +486,7 @@ pub proof fn lemma_truncate<T, U>(ix0: Seq<usize>, ix1: Seq<usize>, res: Option<
 }
 
 // The invariant in the property's own words: with `ix` the kept positions, the view is the filter-map of the source in source order.
+#[verifier::rlimit(80)]
 pub proof fn lemma_view_is_fmap<T, U>(ix: Seq<usize>, orig: Seq<T>, fs: spec_fn(T) -> Option<U>)
     requires is_kept(ix, orig, fs),
     ensures view_of(ix, orig, fs) == fmap(orig, fs),
@@ -544,6 +553,7 @@ pub proof fn lemma_reset<T, U>(ix0: Seq<usize>, ix1: Seq<usize>, len1: usize, r:
 }
 
 // ---- Append: n pushes at the back, one per new item (needs prelude/loops.rs: mask_filter, mask_positions)
+#[verifier::rlimit(80)]
 pub proof fn lemma_append_steps<T, U>(ix0: Seq<usize>, ix1: Seq<usize>, orig: Seq<T>, values: Seq<T>, fs: spec_fn(T) -> Option<U>, mask: Seq<bool>)
     requires
         finv(ix0, orig.len() as usize, orig, fs),
